@@ -56,32 +56,54 @@ Proof.
   split; [exact Hs|]. split; [rewrite concat_split; exact Hc | exact Hm].
 Qed.
 
-Lemma step_ok size idxs o c : obj_ok size idxs o ->
-  obj_ok size idxs (fst (bk_step o c)) /\ snd (bk_step o c) = bk_fresh size idxs c.
+(* get_count on an object satisfying the invariant: the true counts, and the invariant is kept *)
+Lemma count_step_ok size idxs o : obj_ok size idxs o ->
+  obj_ok size idxs (fst (bk_count_step o)) /\ snd (bk_count_step o) = bk_cells size (bk_count size idxs).
 Proof.
-  intros Ho. pose proof Ho as (Hs & Hc & Hm).
-  destruct c as [|lens data fill skipna ebv|lens data|lens data]; cbn [bk_step bk_fresh].
-  - destruct Hm as [Hm|Hm]; rewrite Hm; cbn [fst snd].
-    + assert (E : bk_cells (o_size o) (bk_hist_chunked Z.add 0 (o_size o) (map (map (fun i => (i, 1))) (o_chunks o)))
-                  = bk_cells size (bk_count size idxs)).
-      { rewrite Hs. unfold bk_cells. apply map_ext. intros k. rewrite count_chunked_flat, Hc. reflexivity. }
-      rewrite E. split; [|reflexivity]. unfold obj_ok. cbn [o_size o_chunks o_counts]. auto.
-    + split; [exact Ho | reflexivity].
-  - cbn [fst snd]. pose proof (rechunk_ok size idxs lens o Ho) as Ho'. split; [exact Ho'|].
-    destruct Ho' as (_ & Hc' & _). rewrite Hc', Hs. f_equal. unfold bk_cells. apply map_ext. intros k. apply get_sum_chunked_flat.
-  - cbn [fst snd]. pose proof (rechunk_ok size idxs lens o Ho) as Ho'. split; [exact Ho'|].
-    destruct Ho' as (_ & Hc' & _). rewrite Hc', Hs. reflexivity.
-  - cbn [fst snd]. pose proof (rechunk_ok size idxs lens o Ho) as Ho'. split; [exact Ho'|].
-    destruct Ho' as (_ & Hc' & _). rewrite Hc', Hs. reflexivity.
+  intros Ho. pose proof Ho as (Hs & Hc & Hm). unfold bk_count_step.
+  destruct Hm as [Hm|Hm]; rewrite Hm; cbn [fst snd].
+  - assert (E : bk_cells (o_size o) (bk_hist_chunked Z.add 0 (o_size o) (map (map (fun i => (i, 1))) (o_chunks o)))
+                = bk_cells size (bk_count size idxs)).
+    { rewrite Hs. unfold bk_cells. apply map_ext. intros k. rewrite count_chunked_flat, Hc. reflexivity. }
+    rewrite E. split; [|reflexivity]. unfold obj_ok. cbn [o_size o_chunks o_counts]. auto.
+  - split; [exact Ho | reflexivity].
 Qed.
 
-Lemma run_fresh size idxs calls : forall o, obj_ok size idxs o -> bk_run o calls = map (bk_fresh size idxs) calls.
-Proof.
-  induction calls as [|c calls IH]; intros o Ho; [reflexivity|]. cbn [bk_run map].
-  destruct (step_ok size idxs o c Ho) as [Ho' Er]. destruct (bk_step o c) as [o' res]. cbn [fst snd] in *.
-  rewrite Er, (IH o' Ho'). reflexivity.
-Qed.
+Lemma combine_map_self {A B} (f : A -> B) (l : list A) : combine l (map f l) = map (fun k => (k, f k)) l.
+Proof. induction l as [|x l IH]; [reflexivity|]. cbn [map combine]. rewrite IH. reflexivity. Qed.
 
-Lemma history_independent size (chunks0 : list (list Z)) calls :
-  bk_run (mk_obj size chunks0 None) calls = map (bk_fresh size (concat chunks0)) calls.
-Proof. apply run_fresh. repeat split; cbn; auto. Qed.
+Section History.
+  Context {T : Type} (OP : ops T).
+
+  Lemma step_ok size idxs o c : obj_ok size idxs o ->
+    obj_ok size idxs (fst (bk_step OP o c)) /\ snd (bk_step OP o c) = bk_fresh OP size idxs c.
+  Proof.
+    intros Ho. pose proof Ho as (Hs & Hc & Hm).
+    destruct c as [|lens data fill skipna ebv|lens data|lens data|lens data fill skipna|lens data cat fill]; cbn [bk_step bk_fresh].
+    - destruct (count_step_ok size idxs o Ho) as [Ho1 E1]. destruct (bk_count_step o) as [o1 cs]. cbn [fst snd] in *.
+      rewrite E1. split; [exact Ho1 | reflexivity].
+    - cbn [fst snd]. pose proof (rechunk_ok size idxs lens o Ho) as Ho'. split; [exact Ho'|].
+      destruct Ho' as (_ & Hc' & _). rewrite Hc', Hs. f_equal. unfold bk_cells. apply map_ext. intros k. apply get_sum_chunked_flat.
+    - cbn [fst snd]. pose proof (rechunk_ok size idxs lens o Ho) as Ho'. split; [exact Ho'|].
+      destruct Ho' as (_ & Hc' & _). rewrite Hc', Hs. reflexivity.
+    - cbn [fst snd]. pose proof (rechunk_ok size idxs lens o Ho) as Ho'. split; [exact Ho'|].
+      destruct Ho' as (_ & Hc' & _). rewrite Hc', Hs. reflexivity.
+    - cbn [fst snd]. pose proof (rechunk_ok size idxs lens o Ho) as Ho'. split; [exact Ho'|].
+      destruct Ho' as (_ & Hc' & _). rewrite Hc', Hs. reflexivity.
+    - destruct (count_step_ok size idxs o Ho) as [Ho1 E1]. destruct (bk_count_step o) as [o1 cs]. cbn [fst snd] in *.
+      pose proof (rechunk_ok size idxs lens o1 Ho1) as Ho'. split; [exact Ho'|].
+      destruct Ho' as (_ & Hc' & _). rewrite Hc', Hs, E1. f_equal. unfold bk_cells.
+      rewrite combine_map_self, map_map. apply map_ext. intros k. cbn [fst snd]. reflexivity.
+  Qed.
+
+  Lemma run_fresh size idxs calls : forall o, obj_ok size idxs o -> bk_run OP o calls = map (bk_fresh OP size idxs) calls.
+  Proof.
+    induction calls as [|c calls IH]; intros o Ho; [reflexivity|]. cbn [bk_run map].
+    destruct (step_ok size idxs o c Ho) as [Ho' Er]. destruct (bk_step OP o c) as [o' res]. cbn [fst snd] in *.
+    rewrite Er, (IH o' Ho'). reflexivity.
+  Qed.
+
+  Lemma history_independent size (chunks0 : list (list Z)) calls :
+    bk_run OP (mk_obj size chunks0 None) calls = map (bk_fresh OP size (concat chunks0)) calls.
+  Proof. apply run_fresh. repeat split; cbn; auto. Qed.
+End History.
